@@ -218,7 +218,7 @@ type docCheck struct {
 
 func Run(dir, tier string, seed int64) error {
 	run := coqgen.NewRun(dir, "C18", tier, seed)
-	run.Imports = "From Saml Require Import Base.Bytes Xml.Tree Xml.SchemaTypes Xml.Schema Corr.C18Corr."
+	run.Imports = "From Saml Require Import Base.Bytes Xml.Tree Xml.SchemaTypes Xml.Schema Idp.BuilderTypes Idp.Builder Corr.C18Corr."
 	run.CaseType = "c18case"
 	run.BadFn = "c18_bad"
 	run.PerShard = 40
@@ -287,6 +287,19 @@ func Run(dir, tier string, seed int64) error {
 		return gen, true
 	}
 
+	// built: the document against the builder functions of the current source (Gen/Builders.v) and the schema of the struct
+	// tags; message and assertion identifiers and the two instants are read off the document (oracles of the model)
+	built := func(flow, fn, recv string, args []string, root string, doc []byte, desc map[string]interface{}) {
+		t, _, err := rawTree(doc)
+		if err != nil {
+			return
+		}
+		run.Res.Evaluations++
+		run.Count("built=" + flow)
+		run.AddCase(id, builtCase(id, fn, recv, args, root, t), map[string]interface{}{"flow": flow, "builder": fn, "input": desc, "document": string(doc)})
+		id++
+	}
+	idpEntity := sso.IssuerURL + "/metadata"
 	// ===== (1) the IdP's own messages through the endpoints, every hostile string in every data position
 	mkEnv := func(org string) *idp.Env {
 		conf := idp.DefaultConf()
@@ -329,6 +342,10 @@ func Run(dir, tier string, seed int64) error {
 			}
 			flow := "response-success-" + binding[strings.LastIndex(binding, ":")+1:]
 			want := append([]string{h + "#reqid", "https://sp.example/acs?" + h, sso.SPEntity}, userVals...)
+			if t, _, err := rawTree(rep.Msg); err == nil {
+				recv := dObj("provider.Response", "RequestID", dStr(h+"#reqid"), "AcsUrl", dStr("https://sp.example/acs?"+h), "Issuer", dStr(idpEntity), "Audience", dStr(sso.SPEntity), "SendIP", dStr(""))
+				built(flow, "makeSuccessfulResponse", "(Some "+recv+")", []string{dAttributes(u, customOrderIn(t)), dStr("format"), "DNil"}, "samlp.ResponseType", rep.Msg, desc())
+			}
 			if _, ok := checkDoc(flow, rep.Msg, want, desc()); ok {
 				// the library's own decoder
 				dec, err := samlxml.DecodeResponse("", false, string(rep.Msg))
@@ -382,19 +399,53 @@ func Run(dir, tier string, seed int64) error {
 		// -- login callback, failure (unknown user): status message
 		st.Requests["r2"] = &idp.AuthReq{ID: "r2", AppID: "app-1", RelayState: h, ACS: "https://sp.example/acs?" + h, Binding: idp.PostBinding, AuthReqID: h + "#reqid", UserID: "nobody", IsDone: true}
 		if rep := env.Do(idp.ReqSpec{Method: http.MethodGet, Path: "/login", Query: []idp.Param{idp.Q("id", "r2")}}.HTTP()); rep.Msg != nil {
+			if t, _, err := rawTree(rep.Msg); err == nil {
+				code, msg := "", ""
+				if sc := t.find("StatusCode"); sc != nil {
+					code = sc.attr("Value")
+				}
+				if sm := t.find("StatusMessage"); sm != nil {
+					msg = sm.text
+				}
+				recv := dObj("provider.Response", "RequestID", dStr(h+"#reqid"), "AcsUrl", dStr("https://sp.example/acs?"+h), "Issuer", dStr(idpEntity), "Audience", dStr(sso.SPEntity), "SendIP", dStr(""))
+				built("response-failed-callback", "makeFailedResponse", "(Some "+recv+")", []string{dStr(code), dStr(msg), dStr("format")}, "samlp.ResponseType", rep.Msg, desc())
+			}
 			checkDoc("response-failed-callback", rep.Msg, []string{h + "#reqid", "https://sp.example/acs?" + h}, desc())
 		}
 		// -- values that arrive inside request XML must be XML-legal to be sent at all
 		if legal(h) {
 			esc := idp.EscAttr
 			// SSO failure: the request ID is echoed as InResponseTo (expired request)
-			areq := `<samlp:AuthnRequest xmlns:samlp="urn:oasis:names:tc:SAML:2.0:protocol" xmlns:saml="urn:oasis:names:tc:SAML:2.0:assertion" ID="` + esc(h+"#id") + `" Version="2.0" IssueInstant="2001-01-01T00:00:00Z" Destination="` + sso.SSOLoc + `" ProtocolBinding="` + idp.PostBinding + `"><saml:Issuer>` + sso.SPEntity + `</saml:Issuer></samlp:AuthnRequest>`
+			areq := `<samlp:AuthnRequest xmlns:samlp="urn:oasis:names:tc:SAML:2.0:protocol" xmlns:saml="urn:oasis:names:tc:SAML:2.0:assertion" ID="` + esc(h+"#id") + `" Version="2.0" IssueInstant="2001-01-01T00:00:00Z" Destination="https://elsewhere.example/SSO" ProtocolBinding="` + idp.PostBinding + `"><saml:Issuer>` + sso.SPEntity + `</saml:Issuer></samlp:AuthnRequest>`
 			if rep := env.Do(idp.ReqSpec{Method: http.MethodPost, Path: "/SSO", Body: []idp.Param{idp.Q("SAMLRequest", idp.B64([]byte(areq))), idp.Q("RelayState", h)}}.HTTP()); rep.Msg != nil {
+				if t, _, err := rawTree(rep.Msg); err == nil && rep.Kind == "saml-post" {
+					code, msg := "", ""
+					if sc := t.find("StatusCode"); sc != nil {
+						code = sc.attr("Value")
+					}
+					if sm := t.find("StatusMessage"); sm != nil {
+						msg = sm.text
+					}
+					recv := dObj("provider.Response", "RequestID", dStr(h+"#id"), "AcsUrl", dStr(rep.FormAction), "Issuer", dStr(idpEntity), "Audience", dStr(sso.SPEntity), "SendIP", dStr(""))
+					built("response-failed-sso", "makeFailedResponse", "(Some "+recv+")", []string{dStr(code), dStr(msg), dStr("format")}, "samlp.ResponseType", rep.Msg, desc())
+				}
 				checkDoc("response-failed-sso", rep.Msg, []string{h + "#id"}, desc())
 			}
 			// logout: request ID echoed
 			lreq := `<samlp:LogoutRequest xmlns:samlp="urn:oasis:names:tc:SAML:2.0:protocol" xmlns:saml="urn:oasis:names:tc:SAML:2.0:assertion" ID="` + esc(h+"#id") + `" Version="2.0"><saml:Issuer>` + sso.SPEntity + `</saml:Issuer><saml:NameID>` + esc(h) + `</saml:NameID></samlp:LogoutRequest>`
 			if rep := env.Do(idp.ReqSpec{Method: http.MethodPost, Path: "/SLO", Body: []idp.Param{idp.Q("SAMLRequest", idp.B64([]byte(lreq))), idp.Q("RelayState", h)}}.HTTP()); rep.Msg != nil {
+				if t, _, err := rawTree(rep.Msg); err == nil {
+					recv := dObj("provider.LogoutResponse", "RequestID", dStr(h+"#id"), "LogoutURL", dStr(rep.FormAction), "Issuer", dStr(idpEntity))
+					fn, args := "makeSuccessfulLogoutResponse", []string{dStr("format")}
+					if sc := t.find("StatusCode"); sc != nil && sc.attr("Value") != "urn:oasis:names:tc:SAML:2.0:status:Success" {
+						msg := ""
+						if sm := t.find("StatusMessage"); sm != nil {
+							msg = sm.text
+						}
+						fn, args = "makeFailedLogoutResponse", []string{dStr(sc.attr("Value")), dStr(msg), dStr("format")}
+					}
+					built("logout-response", fn, "(Some "+recv+")", args, "samlp.LogoutResponseType", rep.Msg, desc())
+				}
 				if _, ok := checkDoc("logout-response", rep.Msg, []string{h + "#id"}, desc()); ok {
 					var lr samlp.LogoutResponseType
 					if err := xml.Unmarshal(rep.Msg, &lr); err != nil || lr.InResponseTo != h+"#id" {
@@ -423,6 +474,15 @@ func Run(dir, tier string, seed int64) error {
 			// attribute query: request ID, subject, user attributes
 			aq := `<soap:Envelope xmlns:soap="http://schemas.xmlsoap.org/soap/envelope/"><soap:Body><samlp:AttributeQuery xmlns:samlp="urn:oasis:names:tc:SAML:2.0:protocol" xmlns:saml="urn:oasis:names:tc:SAML:2.0:assertion" ID="` + esc(h+"#id") + `" Version="2.0" IssueInstant="2024-01-01T00:00:00Z"><saml:Issuer>` + sso.SPEntity + `</saml:Issuer><saml:Subject><saml:NameID>alice</saml:NameID></saml:Subject></samlp:AttributeQuery></soap:Body></soap:Envelope>`
 			if rep := env.Do(idp.ReqSpec{Method: http.MethodPost, Path: "/attribute", RawBody: &aq}.HTTP()); rep.Msg != nil && rep.Code == 200 {
+				if t, _, err := rawTree(rep.Msg); err == nil {
+					if resp := t.find("Response"); resp != nil {
+						run.Res.Evaluations++
+						run.Count("built=attribute-response")
+						args := []string{dStr(h + "#id"), dStr(idpEntity), dStr(sso.SPEntity), dAttributes(u, customOrderIn(resp)), "DNil", dStr("format"), "DNil"}
+						run.AddCase(id, builtCase(id, "makeAttributeQueryResponse", "None", args, "samlp.ResponseType", resp), map[string]interface{}{"flow": "attribute-response", "builder": "makeAttributeQueryResponse", "input": desc(), "document": string(rep.Msg)})
+						id++
+					}
+				}
 				if _, ok := checkDoc("attribute-response", rep.Msg, append([]string{h + "#id", sso.SPEntity}, userVals...), desc()); ok {
 					var envl soap.ResponseEnvelope
 					if err := xml.Unmarshal(rep.Msg, &envl); err != nil || envl.Body.Response == nil || envl.Body.Response.InResponseTo != h+"#id" {
